@@ -40,7 +40,8 @@ def gen(rng, tier):
   regs = []
   for i in range(rng.randint(0, 2)):
     kind = rng.choice(['deny_required', 'allow_without_required', 'both_lists',
-                       'unknown_in_list', 'ok'])
+                       'unknown_in_list', 'ok', 'alias_deny_required',
+                       'alias_allow_without_required', 'ghost_then_required'])
     regs.append({'kind': kind, 'name': 'r%d' % i,
                  'api': rng.choice(['configurable', 'register', 'external'])})
   case['regs'] = regs
@@ -64,6 +65,66 @@ def run(case):
       filled += 1
   failing = stats['failing_calls']
   for r in case.get('regs', []):
+    if r['kind'].startswith('alias_'):
+      # a callable that is registered already (validly) is registered again,
+      # now with a list that excludes its signature-REQUIRED parameter
+      base = [sp for sp in case['specs'] if cm.alias_eligible(sp) and
+              any(p.get('d') == cm.REQ for p in sp['params'])]
+      if not base:
+        continue
+      sp = base[0]
+      req = [p['n'] for p in sp['params'] if p.get('d') == cm.REQ]
+      others = [p['n'] for p in sp['params'] if p['n'] not in req]
+      kw = {'denylist': [req[0]]} if r['kind'] == 'alias_deny_required' else \
+          {'allowlist': others or ['nope_x']}
+      exc = None
+      try:
+        gin.external_configurable(w.originals[sp['name']], name=r['name'],
+                                  module='mm.alias', **kw)
+      except Exception as e:  # pylint: disable=broad-except
+        exc = e
+      log.add('reg', r['kind'], type(exc).__name__ if exc else None)
+      if exc is None:
+        v('C10.registration', [r['kind'], 'accepted'],
+          'registering the already registered %s again with %r (excluding its '
+          'signature-REQUIRED parameter %s) was accepted' %
+          (sp['name'], kw, req[0]))
+      continue
+    if r['kind'] == 'ghost_then_required':
+      # a rejected registration whose function is dropped, then - at once - a
+      # new function whose REQUIRED default must be seen
+      import gc
+      g1 = {}
+      exec('def %s_g(x=1, y=2):\n  return x\n' % r['name'], g1)  # pylint: disable=exec-used
+      try:
+        gin.external_configurable(g1.pop('%s_g' % r['name']),
+                                  name=r['name'] + '_g', allowlist=['nope'])
+      except Exception:  # pylint: disable=broad-except
+        pass
+      g1.clear()
+      gc.collect()
+      ran = []
+      g2 = {'REQ': gin.REQUIRED, 'ran': ran}
+      exec('def %s_n(a=REQ, b=2):\n  ran.append(a)\n  return a\n' % r['name'],  # pylint: disable=exec-used
+           g2)
+      exc = None
+      try:
+        conf = gin.external_configurable(g2['%s_n' % r['name']],
+                                         name=r['name'] + '_n')
+        conf()
+      except Exception as e:  # pylint: disable=broad-except
+        exc = e
+      log.add('reg', r['kind'], type(exc).__name__ if exc else None, len(ran))
+      if ran:
+        v('C10.marker_never_passed', ['after-rejected-registration'],
+          'a function registered right after a rejected registration ran with '
+          'the REQUIRED marker for its unbound parameter: %r' % ran)
+      elif not isinstance(exc, RuntimeError):
+        v('C10.call_fails', ['after-rejected-registration',
+                             type(exc).__name__ if exc else 'no-error'],
+          'expected RuntimeError for the unbound REQUIRED parameter, got %r' %
+          exc)
+      continue
     params = [{'n': 'a', 'k': 'def', 'd': cm.REQ}, {'n': 'b', 'k': 'def', 'd': 1}]
     spec = {'name': r['name'], 'kind': 'fn', 'params': params, 'api': r['api']}
     if r['kind'] == 'deny_required':
